@@ -37,10 +37,11 @@ func parseAckFrame(frame *AckFrame, b []byte, typ FrameType, ackDelayExponent ui
 	}
 	b = b[l:]
 
-	delayTime := time.Duration(delay*1<<ackDelayExponent) * time.Microsecond
-	if delayTime < 0 {
-		// If the delay time overflows, set it to the maximum encode-able value.
-		delayTime = time.Duration(math.MaxInt64)
+	// If the delay time overflows, set it to the maximum encode-able value.
+	// Both the shift and the multiplication wrap: checking the sign of the result doesn't catch all overflows.
+	delayTime := time.Duration(math.MaxInt64)
+	if delay <= uint64(math.MaxInt64/time.Microsecond)>>ackDelayExponent {
+		delayTime = time.Duration(delay<<ackDelayExponent) * time.Microsecond
 	}
 	frame.DelayTime = delayTime
 
